@@ -93,7 +93,59 @@ def _catalogue(tier, seed):
     return sorted(set(out))
 
 
+PROBES = ['2', '2.0', '2.0.0', '2.0a', '2.0.0a', '2.0b', '2.0.1', '1.9', '1.9z', '3', '3.0', '3.0a', '3.0.0', '3.0.0b', '2.5', '2.5a', '10.0', '0', '0a', '3.1', '2.9.9']
+
+_NEAREST_CODE = r'''
+import sys, json, warnings
+sys.path.insert(0, sys.argv[1])
+warnings.simplefilter('ignore')
+from hszinc.version import Version
+out = []
+for s in json.loads(sys.argv[2]):
+    try:
+        out.append(str(Version.nearest(Version(s))))
+    except Exception as e:
+        out.append('ERR ' + type(e).__name__)
+print('RES ' + json.dumps(out))
+'''
+
+
+def _nearest_run(strs):
+    import json
+    import os
+    import subprocess
+    import sys
+    repo = os.environ.get('HV_REPO', '/repo')
+    p = subprocess.run([sys.executable, '-c', _NEAREST_CODE, repo, json.dumps(strs)], capture_output=True, text=True, timeout=60)
+    for line in p.stdout.splitlines():
+        if line.startswith('RES '):
+            return json.loads(line[4:])
+    raise RuntimeError('nearest run failed: %s' % p.stderr[-300:])
+
+
+def nearest_history(seed):
+    """nearest() is a function of its argument: each probe asked first in a fresh process against the same probe asked after the others"""
+    from concurrent.futures import ThreadPoolExecutor
+    with ThreadPoolExecutor(8) as ex:
+        alone = list(ex.map(lambda s: _nearest_run([s])[0], PROBES))
+    rnd = random.Random(seed)
+    orders = [list(PROBES), list(reversed(PROBES))]
+    o = list(PROBES)
+    rnd.shuffle(o)
+    orders.append(o)
+    bad = []
+    for order in orders:
+        got = _nearest_run(order + order)
+        for pos, s in enumerate(order + order):
+            want = alone[PROBES.index(s)]
+            if got[pos] != want:
+                bad.append('nearest(%r) is %s when asked first but %s after asking about %r' % (s, want, got[pos], (order + order)[:pos][-4:]))
+    return bad, len(PROBES) * 7
+
+
 def bounded(tier, seed):
+    hist, ncases = nearest_history(seed)
+    failures0 = [{'id': 'C18/nearest-history/%d' % i, 'what': m, 'input': {'kind': 'nearest_history', 'seed': seed}} for i, m in enumerate(hist[:3])]
     cat = _catalogue(tier, seed)
     rnd = random.Random(seed)
     failures = []
@@ -119,9 +171,14 @@ def bounded(tier, seed):
             continue
         seen.add(key)
         out.append({'id': 'C18/%s/%s' % (kind, '|'.join(strs)), 'what': msg, 'input': {'kind': 'versions', 'versions': strs}})
-    return {'cases': cases, 'failures': out[:20], 'bound': 'strings with <=3 numeric groups x small suffix set; all pairs per block, triples per block'}
+    cases += ncases
+    out = failures0 + out
+    return {'cases': cases, 'failures': out[:20], 'bound': 'nearest() asked first in a fresh process vs after other lookups (21 probes, three orders, twice); strings with <=3 numeric groups x small suffix set; all pairs per block, triples per block'}
 
 
 def replay(inp):
+    if inp.get('kind') == 'nearest_history':
+        bad, _ = nearest_history(inp.get('seed', 0))
+        return {'reproduced': bool(bad), 'detail': bad[:3]}
     fails = _laws(inp['versions'], triples=True)
     return {'reproduced': bool(fails), 'detail': [f[2] for f in fails][:10]}
